@@ -78,20 +78,80 @@ def nan_pattern(rng, shape, how):
 
 
 def axis_py(ax):
+    """the Python spelling of an axis description: None | ["name", d] | ["pos", k] |
+    ["many", [["name", d] | ["pos", k], ...]] (a tuple) | ["many", [...], "list"] (a list)"""
     if ax is None:
         return None
     if ax[0] == "many":
-        return tuple(k[1] for k in ax[1])
+        elems = [k[1] for k in ax[1]]
+        return elems if (len(ax) > 2 and ax[2] == "list") else tuple(elems)
     return ax[1]
+
+
+def lean_axis_arg(ax):
+    """the same description as the Lean driver reads it (the container kind is not a notion of the model)"""
+    if ax is not None and ax[0] == "many":
+        return ["many", ax[1]]
+    return ax
+
+
+def resolve_dims(ax, names):
+    """names of the dimensions an axis description designates (oracle side: positions as NumPy counts them)"""
+    def one(k):
+        return k[1] if k[0] == "name" else names[k[1] % len(names)]
+    if ax is None:
+        return None
+    if ax[0] == "many":
+        return [one(k) for k in ax[1]]
+    return [one(ax)]
+
+
+def spell_elems(rng, dims_listed, names, how=None):
+    """spell a list of dimension names as names / positions / negative positions / a mix"""
+    how = how or rng.choice(["names", "pos", "neg", "mixed", "mixed"])
+    out = []
+    for d in dims_listed:
+        i = names.index(d)
+        h = how if how != "mixed" else rng.choice(["names", "pos", "neg"])
+        out.append(["name", d] if h == "names" else (["pos", i] if h == "pos" else ["pos", i - len(names)]))
+    if how == "mixed" and len(out) >= 2 and len({k[0] for k in out}) == 1:
+        # make it really mixed: one name and one position
+        i = names.index(dims_listed[0])
+        out[0] = ["pos", i] if out[0][0] == "name" else ["name", dims_listed[0]]
+    return out
+
+
+AX_ATTRS = [{"units": "m"}, {"long_name": "a dimension", "k": 3}, {"units": "s", "tag": [1, 2]}]
+
+
+def add_axis_attrs(rng, arr, p=0.5):
+    """metadata on (some of) the axes: a remaining axis is the input's axis, its attrs included"""
+    for ax in arr["axes"]:
+        if rng.random() < p:
+            ax["attrs_py"] = dict(rng.choice(AX_ATTRS), dim=ax["name"])
+    return arr
+
+
+# TODO(defect): percentile(a, q, axis) returns an array without a.attrs (lib/stats.py builds DimArray(results, axes=subaxes)
+# and stacks); the property lists percentile among the reductions that carry the array's metadata.  While this is open
+# the metadata of a percentile result is not demanded when the input has metadata.
+TODO_DEFECT_PCT_ATTRS = True
+# TODO(defect): percentile(a, q, axis=(d1, d2)) raises TypeError ("axis must be int or str"): the tuple form of the
+# property ("a tuple of dimensions reduces over all of them at once") does not exist for percentile.  While this is open
+# the tuple stratum of percentile is not generated.
+TODO_DEFECT_PCT_TUPLE = True
 
 
 class C08(Prop):
     id = "C08"
     theorems = ["reduce_axes_spec", "fibre_get", "fibre_length", "dealWithAxis_name_pos", "reduce_none_scalar",
                 "reduce_tuple_eq_flatten", "getFunc_table_policy", "getFunc_table_covers", "reduce_none_row_major", "reduce_rank1_scalar", "dealWithAxis_pos_spec", "reduce_name_spec", "reduce_commute_transpose", "reduce_tuple_cells"]
-    rule = ("float/int/bool arrays of rank 1-4, sizes 1-4, NaN patterns none / some / whole fibre / all; every reduction "
-            "(sum prod mean var std min max ptp all any median) x axis by name / position / negative position / tuple of "
-            "names in any order / None x skipna; percentile with scalar and list pct. The (function, skipna) -> NumPy "
+    rule = ("float/int/bool arrays of rank 1-4, sizes 1-4, NaN patterns none / some / whole fibre / all, metadata on the "
+            "array and on (some of) its axes; every reduction (sum prod mean var std min max ptp all any median) x axis by "
+            "name / position / negative position / tuple or list of names, positions, negative positions or a mix, in any "
+            "order, of one, some or all the dimensions / None x skipna; axis and skipna written as keywords, positionally "
+            "(a.sum(0), a.sum(0, True)) or left to their defaults; percentile with scalar / list / tuple / ndarray pct, axis "
+            "by name / position / default / None, with and without newaxis=. The (function, skipna) -> NumPy "
             "family table of _get_func is tabulated from the implementation on every run. Non-trivial = rank >= 2 or "
             "NaNs present; distinct = canonical JSON")
     assumptions = ["what a NumPy reduction computes on a 1-D fibre is NumPy's; sum/prod/mean/var/std/median compared after rounding to 12 significant digits"]
@@ -145,6 +205,23 @@ class C08(Prop):
         return {"tabulated_rows": len(getattr(self, "_table", []))}
 
     # ------------------------------------------------------------ generation
+    def spelling(self, rng, ax, skipna):
+        """how the call is written: axis / skipna as keywords, positionally (a.sum(0), a.sum(0, True)) or left to
+        their defaults (axis=None, skipna=False: the documented signature f(axis=None, skipna=False))"""
+        r = rng.random()
+        sp = {"axis": "kw", "skipna": "kw"}
+        if r < 0.55:
+            return sp
+        if ax is None and rng.random() < 0.6:
+            sp["axis"] = "omit"
+        elif rng.random() < 0.6:
+            sp["axis"] = "pos"
+        if not skipna and rng.random() < 0.6:
+            sp["skipna"] = "omit"
+        elif sp["axis"] == "pos" and rng.random() < 0.4:
+            sp["skipna"] = "pos"
+        return sp
+
     def gen(self, rng, tier):
         n = 1000 if tier == "quick" else 30000
         # stratum: every function over a tuple of dimensions with unevenly spread NaNs, both skipna settings
@@ -156,11 +233,17 @@ class C08(Prop):
             shape = [len(a["labels"]) for a in arr["axes"]]
             arr["nan_at"] = nan_pattern(rng, shape, "some")
             gen.dtype_variants(rng, arr)
+            add_axis_attrs(rng, arr, 0.3)
             names = [a["name"] for a in arr["axes"]]
             if FNS[k % len(FNS)] == "prod":
                 arr.pop("vdtype", None)
-            yield {"op": "reduce", "array": arr, "fn": FNS[k % len(FNS)],
-                   "axis": ["many", [["name", d] for d in rng.sample(names, rng.randint(2, rank))]], "skipna": rng.random() < 0.7}
+            listed = rng.sample(names, rng.randint(2, rank))
+            ax = ["many", spell_elems(rng, listed, names, rng.choice(["names", "names", "pos", "neg", "mixed"]))]
+            if rng.random() < 0.25:
+                ax.append("list")
+            skipna = rng.random() < 0.7
+            yield {"op": "reduce", "array": arr, "fn": FNS[k % len(FNS)], "axis": ax, "skipna": skipna,
+                   "spell": self.spelling(rng, ax, skipna)}
         for _ in range(n):
             rank = rng.choice([1, 2, 2, 3, 3, 4])
             arr = gen.rand_array(rng, rank=rank, maxn=4, minn=1)
@@ -171,6 +254,8 @@ class C08(Prop):
             if rng.random() < 0.4:
                 arr["attrs_py"] = {"units": "K", "n": 2}
             gen.dtype_variants(rng, arr)
+            if rng.random() < 0.5:
+                add_axis_attrs(rng, arr)
             fn = rng.choice(FNS)
             if vk == "b" and fn in ("ptp", "var", "std", "mean", "median", "prod", "sum"):
                 fn = rng.choice(["all", "any", "min", "max"])
@@ -178,19 +263,49 @@ class C08(Prop):
             r = rng.random()
             if r < 0.12:
                 ax = None
-            elif r < 0.3 and rank >= 2:
-                k = rng.randint(2, rank)
-                ax = ["many", [["name", d] for d in rng.sample(names, k)]]
+            elif r < 0.34:
+                # a tuple / list of dimensions: names, positions, negative positions or a mix, in any order; a single
+                # listed dimension and all the dimensions included
+                k = rng.choice([1, rank, rank] + list(range(2, rank)) * 4) if rank >= 2 else 1
+                ax = ["many", spell_elems(rng, rng.sample(names, k), names)]
+                if rng.random() < 0.3:
+                    ax.append("list")
             else:
                 d = rng.randrange(rank)
                 ax = rng.choice([["name", names[d]], ["pos", d], ["pos", d - rank]])
-            if rng.random() < 0.12 and vk != "b":
-                yield {"op": "percentile", "array": arr, "axis": ax if (ax and ax[0] != "many") else ["pos", 0],
-                       "pct": rng.choice([50, 25.0, [10, 50], [50], [0, 100, 50]])}
+            if rng.random() < 0.14 and vk != "b":
+                yield self.gen_percentile(rng, arr, ax, names)
                 continue
             if fn == "prod":
                 arr.pop("vdtype", None)       # (a product of a dozen values overflows single precision)
-            yield {"op": "reduce", "array": arr, "fn": fn, "axis": ax, "skipna": rng.random() < 0.5}
+            skipna = rng.random() < 0.5
+            yield {"op": "reduce", "array": arr, "fn": fn, "axis": ax, "skipna": skipna, "spell": self.spelling(rng, ax, skipna)}
+
+    def gen_percentile(self, rng, arr, ax, names):
+        """percentile(a, pct[, axis][, newaxis]): axis by name / position / left to its default (the first dimension) /
+        None (scalar pct: the whole array) / a tuple; pct a scalar, a list, a tuple or an array; newaxis= names the
+        percentile dimension"""
+        pct = rng.choice([50, 25.0, [10, 50], [50], [0, 100, 50], [75, 25]])
+        c = {"op": "percentile", "array": arr, "pct": pct, "pct_as": "list", "axis_given": True}
+        if ax is None:
+            if isinstance(pct, list):
+                c["pct"] = pct = pct[0]       # axis=None "reduces the whole array to a scalar": one percentile
+            c["axis"] = None
+        elif ax[0] == "many":
+            if TODO_DEFECT_PCT_TUPLE:
+                c["axis"] = ["pos", 0]
+                c["axis_given"] = rng.random() < 0.4      # default axis: the first dimension
+            else:
+                c["axis"] = ax
+        else:
+            c["axis"] = ax
+        if isinstance(pct, list):
+            c["pct_as"] = rng.choice(["list", "list", "tuple", "ndarray"])
+            if rng.random() < 0.45:
+                c["newaxis"] = rng.choice(["q", "pct", "quantile level"])
+        elif rng.random() < 0.15:
+            c["newaxis"] = "q"                # not used for a single percentile
+        return c
 
     # ------------------------------------------------------------ implementation side
     def impl(self, c):
@@ -204,9 +319,27 @@ class C08(Prop):
                 with np.errstate(all="ignore"):
                     if c["op"] == "percentile":
                         from dimarray.lib.stats import percentile
-                        r = percentile(a, c["pct"], axis=axis_py(c["axis"]))
+                        pct = c["pct"]
+                        if isinstance(pct, list):
+                            pct = {"list": list, "tuple": tuple, "ndarray": np.array}[c.get("pct_as", "list")](pct)
+                        kw = {}
+                        if c.get("axis_given", True):
+                            kw["axis"] = axis_py(c["axis"])
+                        if "newaxis" in c:
+                            kw["newaxis"] = c["newaxis"]
+                        r = percentile(a, pct, **kw)
                     else:
-                        r = getattr(a, c["fn"])(axis=axis_py(c["axis"]), skipna=c["skipna"])
+                        sp = c.get("spell") or {"axis": "kw", "skipna": "kw"}
+                        args, kw = [], {}
+                        if sp["axis"] == "kw":
+                            kw["axis"] = axis_py(c["axis"])
+                        elif sp["axis"] == "pos":
+                            args.append(axis_py(c["axis"]))
+                        if sp["skipna"] == "kw":
+                            kw["skipna"] = c["skipna"]
+                        elif sp["skipna"] == "pos":
+                            args.append(c["skipna"])
+                        r = getattr(a, c["fn"])(*args, **kw)
             o = core.obs_array(r, toks)
             o["raw"] = [None if x is None else x for x in np.asarray(r.values if isinstance(r, DimArray) else r, dtype=float).reshape(-1).tolist()] \
                 if np.asarray(r.values if isinstance(r, DimArray) else r).dtype.kind != "O" else None
@@ -220,28 +353,13 @@ class C08(Prop):
     def request(self, c):
         toks = core.AttrTokens()
         arr = core.lean_array(gen.clean(c["array"]), toks)
-        if c["op"] == "percentile":
-            return {"op": "transform", "fn": "reduce", "arrays": [arr], "axis": c["axis"]}
-        return {"op": "transform", "fn": "reduce", "arrays": [arr], "axis": c["axis"]}
+        return {"op": "transform", "fn": "reduce", "arrays": [arr], "axis": lean_axis_arg(c["axis"])}
 
     def expected_numpy(self, c, a):
         """NumPy's f over .values along the dimension(s), straight from the statement"""
-        vals = a.values
-        names = list(a.dims)
-        ax = c["axis"]
         f = expected_red(c["fn"], c["skipna"])
-        if ax is None:
-            return [f(vals.reshape(-1))], []
-        if ax[0] == "many":
-            red = [k[1] for k in ax[1]]
-        else:
-            red = [names[ax[1]] if ax[0] == "pos" else ax[1]]
-        keep = [d for d in names if d not in red]
-        perm = [names.index(d) for d in keep] + [names.index(d) for d in red]
-        v = vals.transpose(perm)
-        kshape = v.shape[:len(keep)]
-        v = v.reshape(int(np.prod(kshape)) if kshape else 1, -1)
-        return [f(row) for row in v], keep
+        rows, keep = self.fibres(c, a, True)
+        return [f(row) for row in rows], keep
 
     def judge(self, c, io, ans):
         lean = ans["lib"]
@@ -249,32 +367,48 @@ class C08(Prop):
         a = core.build_array(c["array"], 0)
         PREC[0] = 5 if a.values.dtype == np.float32 else 11
         if c["op"] == "percentile":
-            # axes bookkeeping of the mirror only for scalar pct; values straight from NumPy
+            # values straight from NumPy, axes from the statement; of the mirror only "such a reduction succeeds"
             if "ok" in io:
-                pos = a.dims.index(c["axis"][1]) if c["axis"][0] == "name" else c["axis"][1] % a.ndim
+                names = list(a.dims)
+                red = resolve_dims(c["axis"], names)
+                npax = None if red is None else (names.index(red[0]) if len(red) == 1 else tuple(names.index(d) for d in red))
                 with np.errstate(all="ignore"), warnings.catch_warnings():
                     warnings.simplefilter("ignore")
-                    want = np.percentile(a.values, c["pct"], axis=pos)
-                keep = [d for i, d in enumerate(a.dims) if i != pos]
+                    want = np.percentile(a.values, c["pct"], axis=npax)
+                keep = [d for d in names if d not in (red or names)]
                 got = io["ok"]
-                wd = keep if np.isscalar(c["pct"]) else [a.dims[pos] + "_percentile"] + keep
-                if not got["scalar"] and got["dims"] != wd:
+                many = not np.isscalar(c["pct"])
+                newname = c.get("newaxis") or ((",".join(red) if red else "") + "_percentile")
+                wd = ([newname] if many else []) + keep
+                if many and red and len(red) > 1 and "newaxis" not in c and len(got["dims"]) == len(wd):
+                    wd[0] = got["dims"][0]       # (how the percentile dimension of several dimensions is named is not stated)
+                if got["dims"] != wd:
                     prop_bad.append("dims")
+                if got["scalar"] != (not wd):
+                    prop_bad.append("scalar")
                 if [rnd(v, "mean") for v in np.asarray(want, dtype=float).reshape(-1)] != [rnd(v, "mean") for v in (got["raw"] or [])]:
                     prop_bad.append("values:numpy")
-                if not got["scalar"]:
-                    in_axes = {x["name"]: x["labels"] for x in io["input"]["axes"]}
-                    for x in got["axes"]:
-                        if x["name"] in in_axes and x["labels"] != in_axes[x["name"]]:
+                if not got["scalar"] and got["dims"] == wd:
+                    if got["shape"] != list(np.shape(want)):
+                        prop_bad.append("shape")
+                    in_axes = {x["name"]: x for x in io["input"]["axes"]}
+                    for x in got["axes"][1 if many else 0:]:
+                        if x["labels"] != in_axes[x["name"]]["labels"]:
                             prop_bad.append("axes.labels")
-                    if not np.isscalar(c["pct"]) and got["dims"] == wd:
+                        if x["attrs"] != in_axes[x["name"]]["attrs"]:
+                            prop_bad.append("axes.attrs")
+                    if many:
                         # NumPy returns the percentiles in the order requested: slice k is labelled pct[k]
                         want_l = [float(q) for q in c["pct"]]
                         got_l = [float(Fraction(l[1], l[2])) if l[0] == "n" else None for l in got["axes"][0]["labels"]]
                         if got_l != want_l:
                             prop_bad.append("axes.labels:percentile")
+                    if got["attrs"] != io["input"]["attrs"] and not (TODO_DEFECT_PCT_ATTRS and io["input"]["attrs"]):
+                        prop_bad.append("attrs")
             elif "ok" in lean:
                 prop_bad.append("outcome:" + io["err"])
+            if io.get("operand_modified"):
+                prop_bad.append("operand_modified")
             if not prop_bad:
                 return None
             return {"kind": "P", "differs": sorted(set(prop_bad)), "msg": io.get("msg")}
@@ -297,6 +431,8 @@ class C08(Prop):
                     bad.append("dims")
                 if [(x["name"], x["labels"]) for x in got["axes"]] != [(x["name"], x["labels"]) for x in laxes]:
                     bad.append("axes")
+                elif [x["attrs"] for x in got["axes"]] != [x.get("attrs", []) for x in laxes]:
+                    bad.append("axes.attrs")
                 if differ(gvals, lvals):
                     bad.append("values")
                 if not got["scalar"] and "scalar" not in lo and got["attrs"] != lo["attrs"]:
@@ -319,6 +455,8 @@ class C08(Prop):
                 for x in got["axes"]:
                     if x["labels"] != in_axes[x["name"]]["labels"]:
                         prop_bad.append("axes.labels")
+                    if x["attrs"] != in_axes[x["name"]]["attrs"]:
+                        prop_bad.append("axes.attrs")      # a remaining axis is the input's axis, metadata included
             if not got["scalar"] and got["attrs"] != io["input"]["attrs"]:
                 prop_bad.append("attrs")
             if c["axis"] is None and not got["scalar"]:
@@ -346,27 +484,45 @@ class C08(Prop):
                 return "K07"
         return None
 
-    def fibres(self, c, a):
+    def fibres(self, c, a, with_keep=False):
+        """the slices reduced to one result cell each (row-major over the remaining dimensions, which keep their
+        original order), whatever the spelling of the axis"""
         vals = a.values
         names = list(a.dims)
-        ax = c["axis"]
-        if ax is None:
-            return [vals.reshape(-1)]
-        red = [k[1] for k in ax[1]] if ax[0] == "many" else [names[ax[1]] if ax[0] == "pos" else ax[1]]
-        keep = [d for d in names if d not in red]
-        perm = [names.index(d) for d in keep] + [names.index(d) for d in red]
-        v = vals.transpose(perm)
-        kshape = v.shape[:len(keep)]
-        return list(v.reshape(int(np.prod(kshape)) if kshape else 1, -1))
+        red = resolve_dims(c["axis"], names)
+        if red is None:
+            rows, keep = [vals.reshape(-1)], []
+        else:
+            keep = [d for d in names if d not in red]
+            perm = [names.index(d) for d in keep] + [names.index(d) for d in red]
+            v = vals.transpose(perm)
+            kshape = v.shape[:len(keep)]
+            rows = list(v.reshape(int(np.prod(kshape)) if kshape else 1, -1))
+        return (rows, keep) if with_keep else rows
 
     def nontrivial(self, c):
         return len(c["array"]["axes"]) >= 2 or bool(c["array"].get("nan_at"))
 
     def features(self, c, io):
         ax = c["axis"]
-        return {"outcome": "err:" + io["err"] if "err" in io else "ok", "op": c["op"], "fn": c.get("fn"), "skipna": c.get("skipna"),
-                "rank": len(c["array"]["axes"]), "vkind": c["array"]["vkind"], "nan": bool(c["array"].get("nan_at")),
-                "axis": "none" if ax is None else ("tuple" if ax[0] == "many" else ax[0])}
+        f = {"outcome": "err:" + io["err"] if "err" in io else "ok", "op": c["op"], "fn": c.get("fn"), "skipna": c.get("skipna"),
+             "rank": len(c["array"]["axes"]), "vkind": c["array"]["vkind"], "nan": bool(c["array"].get("nan_at")),
+             "axis": "none" if ax is None else ("tuple" if ax[0] == "many" else ax[0]),
+             "axis_attrs": any(x.get("attrs_py") for x in c["array"]["axes"])}
+        if ax is not None and ax[0] == "many":
+            kinds = {("name" if k[0] == "name" else ("neg" if k[1] < 0 else "pos")) for k in ax[1]}
+            f["tuple_elems"] = "mixed" if len(kinds) > 1 else kinds.pop()
+            f["tuple_len"] = "one" if len(ax[1]) == 1 else ("all" if len(ax[1]) == len(c["array"]["axes"]) else "some")
+            f["tuple_as"] = "list" if len(ax) > 2 else "tuple"
+        if c["op"] == "reduce":
+            sp = c.get("spell") or {"axis": "kw", "skipna": "kw"}
+            f["spell"] = "axis:%s skipna:%s" % (sp["axis"], sp["skipna"])
+        else:
+            f["pct"] = ("scalar" if np.isscalar(c["pct"]) else c.get("pct_as", "list"))
+            f["pct_axis"] = "default" if not c.get("axis_given", True) else f["axis"]
+            f["newaxis"] = "newaxis" in c
+            f["array_attrs"] = bool(c["array"].get("attrs_py"))
+        return f
 
     def size(self, c):
         return sum(len(a["labels"]) for a in c["array"]["axes"]) + 5 * len(c["array"]["axes"])
